@@ -54,7 +54,9 @@ func (ser *MultiEpoch) getGsfaReadersInEpochDescendingOrderForSlotRange(ctx cont
 	startEpoch := slottools.CalcEpochForSlot(startSlot)
 	endEpoch := slottools.CalcEpochForSlot(endSlot)
 
-	epochs := make([]*Epoch, 0, endEpoch-startEpoch+1)
+	// NOTE: the slot range comes from the client: do not size anything by it
+	// (endEpoch-startEpoch+1 underflows for a reversed range and is huge for a huge end slot).
+	epochs := make([]*Epoch, 0, len(ser.epochs))
 	for _, epoch := range ser.epochs {
 		if epoch.Epoch() >= startEpoch && epoch.Epoch() <= endEpoch {
 			epochs = append(epochs, epoch)
